@@ -114,7 +114,7 @@ def solve_all(obligations, timeout_ms=None, use_cvc5=True, nproc=None):
 def model_for(pc, extra=()):
     """In-process model of And(pc, extra) or None."""
     s = z3.Solver()
-    s.set('timeout', Z3_TIMEOUT_MS)
+    s.set('timeout', 6000)
     s.add(*pc)
     s.add(*extra)
     if s.check() == z3.sat:
